@@ -189,6 +189,20 @@ def numpy_loop(ctx, fi, bounded_expected: bool):
     if isinstance(alloc, ast.Call) and (dotted(alloc.func) or "").endswith("zeros") and alloc.args:
         shp = alloc.args[0]
         rows = ast.unparse(shp.elts[0] if isinstance(shp, ast.Tuple) else shp)
+    if isinstance(alloc, ast.Call):
+        # the vectors are (M[pivot] - R) / sqrt(residual): real numbers whatever the storage type of the input.  A buffer
+        # that takes its dtype from the input (dtype=mat.dtype, zeros_like(mat)) truncates them for integer-valued
+        # integrals (model Hamiltonians with integer U)
+        params_ = {a.arg for a in fi.node.args.args}
+        dk = [k.value for k in alloc.keywords if k.arg == "dtype"]
+        inherits = [k for k in dk if any(isinstance(n, ast.Name) and n.id in params_ for n in ast.walk(k))]
+        like = (dotted(alloc.func) or "").split(".")[-1] in ("zeros_like", "empty_like", "ones_like") and alloc.args and \
+            any(isinstance(n, ast.Name) and n.id in params_ for n in ast.walk(alloc.args[0]))
+        if dk or like:
+            ctx.ob("PAIR-4", f"{q}: the vector buffer has a floating dtype of its own (not the dtype of the input matrix)",
+                   not inherits and not like,
+                   f"{buf} = {ast.unparse(alloc)[:80]}" + (": an integer-valued input truncates every vector on assignment"
+                                                          if inherits or like else ""), fi, getattr(alloc, "lineno", 0))
     pre_write = any(isinstance(st, ast.Assign) and isinstance(st.targets[0], ast.Subscript)
                     and isinstance(st.targets[0].value, ast.Name) and st.targets[0].value.id == buf
                     and (lambda sl: isinstance(sl, ast.Constant) and sl.value == 0)(
